@@ -85,4 +85,15 @@ Qed.''' % ((i, j) * 19))
                 L.append('Lemma nbl_radnn_%d_%d k dx lam z : 0 < lam -> 0 < dx -> lam * lam <= 2 * (dx * dx) -> 0 <= nbl_rad_%d_%d k dx lam z.\nProof.\n  intros Hl Hd Hg. replace (nbl_rad_%d_%d k dx lam z) with (1 - (lam * (%s / dx)) ^ 2 - (lam * (%s / dx)) ^ 2) by (unfold nbl_rad_%d_%d; field; lra).\n  apply rad_as_nonneg; try assumption; lra.\nQed.' % (i, j, i, j, i, j, a, b, i, j))
                 L.append('Lemma nbl_add_%d_%d k dx lam z1 z2 : nbl_ph_%d_%d k dx lam (z1 + z2) = nbl_ph_%d_%d k dx lam z1 + nbl_ph_%d_%d k dx lam z2.\nProof. unfold nbl_ph_%d_%d. ring. Qed.' % ((i, j) * 5))
                 L.append('Lemma nbl_n2_%d_%d k dx lam z : n2 (nbl_re_%d_%d k dx lam z, nbl_im_%d_%d k dx lam z) <= 1.\nProof.\n  unfold nbl_re_%d_%d, nbl_im_%d_%d.\n  match goal with |- context [if ?b then _ else _] => destruct b end;\n  match goal with |- context [cos ?t] => pose proof (Cexpi_n2 t) as H; unfold n2, Cexpi in *; simpl in * end; nra.\nQed.' % ((i, j) * 5))
+                L.append('Lemma nbl_pix_%d_%d k dx lam z : (nbl_re_%d_%d k dx lam z, nbl_im_%d_%d k dx lam z) = Cmult (RtoC (mask01 (nbl_mask_%d_%d k dx lam z))) (Cexpi (nbl_ph_%d_%d k dx lam z)).\nProof.\n  unfold nbl_re_%d_%d, nbl_im_%d_%d, nbl_mask_%d_%d, nbl_ph_%d_%d, mask01, Cmult, Cexpi, RtoC; cbn [fst snd].\n  match goal with |- context [if ?b then _ else _] => destruct b end; f_equal; ring.\nQed.' % ((i, j) * 9))
+                L.append('Lemma nbl_mask_even_%d_%d k dx lam z : nbl_mask_%d_%d k dx lam (- z) = nbl_mask_%d_%d k dx lam z.\nProof. unfold nbl_mask_%d_%d. sqrt_canon. reflexivity. Qed.' % ((i, j) * 4))
+                L.append('''Lemma nbl_laws_%d_%d k dx lam z1 z2 :
+  nbl_mask_%d_%d k dx lam z1 = true -> nbl_mask_%d_%d k dx lam z2 = true -> nbl_mask_%d_%d k dx lam (z1 + z2) = true ->
+   Cmult (nbl_re_%d_%d k dx lam z1, nbl_im_%d_%d k dx lam z1) (nbl_re_%d_%d k dx lam z2, nbl_im_%d_%d k dx lam z2) = (nbl_re_%d_%d k dx lam (z1 + z2), nbl_im_%d_%d k dx lam (z1 + z2)).
+Proof.
+  rewrite !nbl_pix_%d_%d. intros H1 H2 H3. rewrite H1, H2, H3. unfold mask01.
+  replace (Cmult (Cmult (RtoC 1) (Cexpi (nbl_ph_%d_%d k dx lam z1))) (Cmult (RtoC 1) (Cexpi (nbl_ph_%d_%d k dx lam z2))))
+    with (Cmult (RtoC 1) (Cmult (Cexpi (nbl_ph_%d_%d k dx lam z1)) (Cexpi (nbl_ph_%d_%d k dx lam z2)))) by ring.
+  f_equal. apply (kernel_compose (nbl_ph_%d_%d k dx lam)), nbl_add_%d_%d.
+Qed.''' % ((i, j) * 17))
     open('Wave_TieK_%s.v' % tag, 'w').write('\n'.join(L) + '\n')
